@@ -254,7 +254,8 @@ fn gen_ctx_payload(rng: &mut Rng, is_client: bool, expect: u16, pending: &mut Op
         let (typ, seq, total, off, len) = if let (Some((pt, ps, ptotal, pfilled)), true) = (*pending, rng.chance(3, 4)) {
             let remaining = ptotal.saturating_sub(pfilled);
             let len = (match rng.below(6) { 0 => remaining + 1, 1 => 0, _ => rng.range(1, remaining.max(1) as u64) as u32 }).min(400);
-            let off = match rng.below(8) { 0 => pfilled + 1, 1 => 0, _ => pfilled };
+            // at the end of the buffer, beyond it, at 0, or overlapping the bytes already held
+            let off = match rng.below(10) { 0 => pfilled + 1, 1 => 0, 2 | 3 => rng.below(pfilled as u64 + 1) as u32, _ => pfilled };
             (pt, ps, ptotal, off, len)
         } else {
             match rng.below(10) {
@@ -270,7 +271,7 @@ fn gen_ctx_payload(rng: &mut Rng, is_client: bool, expect: u16, pending: &mut Op
         HandshakeMessage { msg_type: ht, total_length: total, message_seq: seq, fragment_offset: off, fragment_length: len, body: bytes::Bytes::from(body) }.encode(&mut out);
         let tl = total.to_be_bytes(); out[start + 1..start + 4].copy_from_slice(&tl[1..]);      // encode() writes body.len() as total
         // harness-side guess of what stays pending (only steers the generator; the comparison does not depend on it)
-        if total != len && seq == exp { if off == 0 && len < total { *pending = Some((typ, seq, total, len)); } else if let Some((a, b, c, f)) = *pending { if off == f { if f + len >= c { *pending = None; exp = exp.wrapping_add(1); } else { *pending = Some((a, b, c, f + len)); } } } }
+        if total != len && seq == exp { if off == 0 && len < total { *pending = Some((typ, seq, total, len)); } else if let Some((a, b, c, f)) = *pending { if off <= f && off + len > f { if off + len >= c { *pending = None; exp = exp.wrapping_add(1); } else { *pending = Some((a, b, c, off + len)); } } } }
         else if total == len && seq == exp { exp = exp.wrapping_add(1); *pending = None; }
     }
     if rng.chance(1, 8) { let n = out.len(); out.truncate(rng.below(n as u64 + 1) as usize); }
